@@ -186,8 +186,12 @@ def run(replay=None):
         sexp.append((p, int(f["tris"]), head))
     stats["sxgrid_cases"] = len(scases)
     if ok_s and scases:
-        mout, _ = common.run_cases_sharded(os.path.join(common.BUILD, "ocaml", "sgdriver"), scases, shards=16, timeout=1800, single_timeout=600)
+        mout, mskipped = common.run_cases_sharded(os.path.join(common.BUILD, "ocaml", "sgdriver"), scases, shards=8, timeout=1800, single_timeout=600)
         SM = parse_out(mout)
+        stats["sxgrid_model_skipped"] = len(mskipped)
+        if os.environ.get("VERIF_DEBUG"):
+            open("/tmp/sx_mout.txt", "w").write(mout)
+            open("/tmp/sx_cases.txt", "w").write("".join(scases))
         sbad = []
         for p, tris, head in sexp:
             m = (SM.get((p.cid, 1)) or [""])[0]
